@@ -28,12 +28,15 @@ class PROP(Prop):
                f"io::{GB}:Popen2IO.read", f"io::{GB}:Popen2IO.write", f"io::{GSOCK}:SocketIO.read", f"io::{GSOCK}:SocketIO.write",
                f"io::{GB}:Message.from_io", f"io::{GB}:Message.to_io",
                # a half close is a half close on every transport (after exit() the initiator still receives what the worker's last tasks send)
-               f"io::{GB}:Popen2IO.close_write", f"io::{GB}:Popen2IO.close_read", f"io::{GSOCK}:SocketIO.close_write", f"io::{GSOCK}:SocketIO.close_read"]
-    extra_worlds = {"io": cio.declare}
+               f"io::{GB}:Popen2IO.close_write", f"io::{GB}:Popen2IO.close_read", f"io::{GSOCK}:SocketIO.close_write", f"io::{GSOCK}:SocketIO.close_read",
+               # the proxied byte stream travels as channel items through these two: one item per write, the reader returns exactly the concatenation (contracts of C19)
+               f"cf::{GB}:ChannelFileWrite.write", f"cf::{GB}:ChannelFileRead.read"]
+    extra_worlds = {"io": cio.declare, "cf": lambda w: __import__("contracts.chanfile", fromlist=["declare"]).declare(w)}
+    heavy = {f"cf::{GB}:ChannelFileRead.read": 4}
     assumptions = [
         "equivalence argument: a gateway's behaviour depends on its transport only through read/write/close_read/close_write/wait/kill; Popen2IO, SocketIO (C08) and ProxyIO are each shown to satisfy "
         "the same IO contract over a byte stream, and the forwarder is shown to be the identity on that stream - that the gateway code above is a function of this contract alone is the modularity assumption of the method (not a proved non-interference theorem)",
-        "ChannelFileRead.read / ChannelFileWrite.write: file semantics over the concatenated items, one item per write (decided by C19)",
+        "ChannelFileRead.read / ChannelFileWrite.write: file semantics over the concatenated items, one item per write - verified here too (world cf, the contracts of C19); readline and close by C19 only",
         "Channel.send/receive: items arrive once and in order (C02), bytes items unchanged (C01); setcallback passes every item to the callback once, in order, from the receiver thread (C10)",
         "the sub's stream consists of frames written by Message.to_io (length fields non-negative); an incomplete trailing frame of a cut stream is dropped by the forwarder (stated in the postcondition as $tail)",
         "the second item on the proxy channel is the control channel (ProxyIO.__init__ sends it): typing.cast taken at its word",
@@ -66,8 +69,8 @@ class PROP(Prop):
         for name, val in (("RIO_KILL", cproxy.RIO_KILL), ("RIO_WAIT", cproxy.RIO_WAIT), ("RIO_REMOTEADDRESS", cproxy.RIO_REMOTEADDRESS), ("RIO_CLOSE_WRITE", cproxy.RIO_CLOSE_WRITE)):
             out.append((f"static/gateway_io/{name}-is-{val}", gio.consts.get(name) == val, f"{name} = {gio.consts.get(name)!r}"))
         out.append(("static/gateway_io/control-codes-distinct", len({gio.consts.get(n) for n in ("RIO_KILL", "RIO_WAIT", "RIO_REMOTEADDRESS", "RIO_CLOSE_WRITE")}) == 4, "distinct codes"))
-        init = ast.unparse(gio.func("ProxyIO.__init__"))
-        mk = ast.unparse(extract.load("execnet.multi").func("Group.makegateway"))
+        init = extract.flat_src(gio, "ProxyIO.__init__")
+        mk = extract.flat_src(extract.load("execnet.multi"), "Group.makegateway")
         sends = [mk.find("proxy_channel.send(vars(spec))"), mk.find("gateway_io.ProxyIO(proxy_channel, self.execmodel)")]
         out.append(("static/makegateway/spec-sent-before-ProxyIO-sends-control-channel", 0 <= sends[0] < sends[1] and "proxy_channel.send(self.controlchan)" in init, f"positions {sends}"))
         out.append(("static/ProxyIO.__init__/file-reads-io-channel", "self.iochan_file = self.iochan.makefile('r')" in init, "iochan_file"))
